@@ -73,7 +73,8 @@ def build_mesh(world):
     fl = world.get("flavour", "list")
     if world.get("declared"):
         # (some of) the triangles are listed explicitly next to the cells, with a winding of the file's choosing (medit / .tet files do)
-        data.faces += [list(f) for f in world["declared"]]
+        conv_ = {"tuple": tuple, "numpy": __import__("numpy").array}.get(fl, list)
+        data.faces += [conv_(f) for f in world["declared"]]
     if fl == "tuple":
         data.cells += [tuple(c) for c in world["cells"]]
     elif fl == "numpy":
@@ -115,7 +116,7 @@ class C03(Sim):
             "order of the lazy caches); non-trivial = >= 3 judged queries from >= 2 families")
     FAULT_KINDS = ["cache_drop", "bad_index"]
     PROBES = ["interior_edge_ring", "border_edge_ring", "sort_off", "query_after_drop", "miss_query", "interior_vertex", "boundary_extracted",
-              "standalone_extracted", "standalone_outward_checked", "mixed_orientation", "fresh_single_query", "reordered_pass", "second_volume", "declared_triangles", "tiny_geometry", "sort_switched"]
+              "standalone_extracted", "standalone_outward_checked", "mixed_orientation", "fresh_single_query", "reordered_pass", "second_volume", "declared_triangles", "tiny_geometry", "sort_switched", "background_library_call"]
     QUICK_RUNS = 3000
     THOROUGH_RUNS = 300000
     BLOCK = 25
@@ -273,6 +274,9 @@ class C03(Sim):
             return {"c": c, "op": "bad_index", "q": q, "args": args}
         if c == "dropper":
             return {"c": c, "op": r.choice(["drop_connectivity", "drop_connectivity", "drop_flip_sort"])}
+        if c == "boundary" and r.chance(0.25):
+            # other library code that reads the connectivity (attribute computations): a state perturber, never judged itself
+            return {"c": c, "op": r.choice(["bg_faces_on_boundary", "bg_cell_volume", "bg_cell_barycenter", "bg_str"])}
         if c == "boundary":
             return {"c": c, "op": r.choice(["enable_boundary", "standalone_boundary", "enable_boundary"] + (["enable_boundary_other"] if self.other is not None else []))}
         qs = [q for q in sorted(Q) if FAMILY[q] == c and q not in cfg["ops_off"]] or [q for q in sorted(Q) if FAMILY[q] == c]
@@ -446,6 +450,15 @@ class C03(Sim):
             o = call(fn, mesh, mesh.connectivity, *ev["args"])
             self.faults["bad_index"] += 1
             self.dropped = self.dropped  # (caches may or may not have been built by the failing call)
+            return o.brief()
+        if op.startswith("bg_"):
+            M = self.M
+            fn = {"bg_faces_on_boundary": lambda: M.attributes.cell_faces_on_boundary(mesh, persistent=False),
+                  "bg_cell_volume": lambda: M.attributes.cell_volume(mesh, persistent=False),
+                  "bg_cell_barycenter": lambda: M.attributes.cell_barycenter(mesh, persistent=False),
+                  "bg_str": lambda: str(mesh)}[op]
+            o = call(fn)
+            self.probes["background_library_call"] += 1
             return o.brief()
         if op == "drop_flip_sort":
             self._sort = not self.sort
